@@ -2564,13 +2564,15 @@ fn gen_scripts(r: &mut Rng, thorough: bool) -> Vec<Script> {
             if ep <= 2 {
                 // (q) the fault while MANY calls are pending (16 registered, in no particular order): the largest one is
                 //     abandoned / times out, the others carry on; then the reader fails too
-                let mut ws: Vec<Wr> = (0..16).map(|j| w0('c', if j == 5 { 400000 } else { 100 + 977 * ((j * 7) % 16) })).collect();
+                //     (one worker thread and the large call spawned first, so that it holds the writer lock when the peer stalls
+                //     and the other fifteen are registered and queued behind it)
+                let mut ws: Vec<Wr> = (0..16).map(|j| w0('c', if j == 0 { 400000 } else { 100 + 977 * ((j * 7) % 16) })).collect();
                 ws.extend([w0('t', 200), w0('J', 500)]);
-                let fault = if ep == 0 { Fault::WTimeout(30) } else { Fault::Cancel(5) };
+                let fault = if ep == 0 { Fault::WTimeout(30) } else { Fault::Cancel(0) };
                 let mut opt = std::collections::BTreeMap::new();
                 opt.insert("pr".to_string(), 1u64);
                 opt.insert("ct".to_string(), 200);
-                push(&mut v, Script { idx: String::new(), ep, buf: small, rt: 2, chunk: 65536, stall_at: 3000, stall_ms: if ep == 0 { 100 } else { 40 }, fault, opt, ws });
+                push(&mut v, Script { idx: String::new(), ep, buf: small, rt: 1, chunk: 65536, stall_at: 0, stall_ms: if ep == 0 { 100 } else { 40 }, fault, opt, ws });
             }
             if ep == 5 {
                 // (q) a drain deadline with dozens of messages queued behind a stalled writer
@@ -2698,7 +2700,9 @@ fn long_stall_scripts(r: &mut Rng, thorough: bool) -> Vec<Script> {
             let (a, b) = if ep <= 2 { ('n', 'c') } else { ('r', 'r') };
             let mut ws = vec![w0(a, 3000), w0(b, 200000 + 1000 * j), w0(a, 9000), w0(b, 100), w0(a, 70000)];
             let fault = match ep {
-                0 | 3 | 4 => if j % 2 == 0 { Fault::WTimeout(100) } else { Fault::WTimeout(*st + 400) },
+                // a timeout that fires early in the stall, or one that fires only just before it ends (the connection
+                // is then old: more than 0.2 … 10.9 s)
+                0 | 3 | 4 => if j % 2 == 0 { Fault::WTimeout(100) } else { Fault::WTimeout(st.saturating_sub(100).max(50)) },
                 1 | 2 => Fault::Cancel(-1),
                 5 => if j % 2 == 0 { Fault::Drain(50) } else { Fault::None },
                 _ => Fault::None,
